@@ -5,7 +5,8 @@
      (A's ring and segment table, B's receiver and ack counter) form a guarded reachable state of
      the data-path system satisfies the prefix property.  What is NOT proved is that every
      reachable pair state has such a view (`poll_refines_dp`, stated below).
-   - c01_pair_unguarded_refuted: the pair model exhibits KF1; the classifier recognises it. *)
+   - c01_pair_unguarded_refuted: the pair model exhibits KF1; the classifier recognises it.
+   - c01_pair_channel_closed_regression: the former D17 witness now satisfies the predicate. *)
 From Utp Require Import Base.Prelude Wire.SeqNr Wire.Header Rtt.Rtte Mtu.SegSizes Rx.Rx Rx.Rx_Proofs Tx.Ring
   Tx.Ring_Proofs Tx.Segments Tx.Segments_Proofs Conn.Recovery Conn.Msg Conn.VSockRec Conn.VSock
   Conn.VSockRun Conn.VObs Conn.C10_Pred Conn.VSock_Inv Pair.Pair Pair.DP Pair.DP_Lemmas Pair.DP_Proofs
@@ -47,12 +48,12 @@ Proof.
   destruct o; try discriminate.
   intro H; injection H as <-.
   eexists. split; [|split; [|split; [|split]]].
-  - unfold on_packet_sent, emit. destruct (seq_gt _ _); vsimpl; rewrite F1; f_equal; f_equal;
+  - unfold on_packet_sent, emit. destruct (seq_gt _ _); [destruct (seq_gt _ _)|]; vsimpl; rewrite F1; f_equal; f_equal;
       rewrite (ring_slice _ _ _ _ _ Htx Hp0); f_equal; lia.
   - reflexivity.
   - reflexivity.
-  - unfold on_packet_sent, emit. destruct (seq_gt _ _); vsimpl; exact F2.
-  - unfold on_packet_sent, emit. destruct (seq_gt _ _); vsimpl; exact F3.
+  - unfold on_packet_sent, emit. destruct (seq_gt _ _); [destruct (seq_gt _ _)|]; vsimpl; exact F2.
+  - unfold on_packet_sent, emit. destruct (seq_gt _ _); [destruct (seq_gt _ _)|]; vsimpl; exact F3.
 Qed.
 
 (* under the joint invariant every item of the sending iterator qualifies, whenever no
@@ -125,12 +126,14 @@ Proof.
   vm_compute in E. injection E as <-. vm_compute. repeat split.
 Qed.
 
-(* ------------------------------------------------------------------ D17 on the pair model
+(* ------------------------------------------------------------------ D17 on the pair model (repaired)
    A's message channel is closed (its socket dispatcher is gone) while an acknowledgement for
-   segment 101 is queued and 102 is outstanding; at the next poll process_all_incoming_messages
-   takes the channel-closed arm and returns BEFORE truncate_front, the retransmission timer has
-   expired, and segment 102 is retransmitted from the un-truncated ring: it carries the bytes of
-   101.  B, which lost the original 102, reads bytes 0..527 twice. *)
+   segment 101 is queued and 102 is outstanding.  Before the repair process_all_incoming_messages
+   took the channel-closed arm and returned BEFORE truncate_front; the retransmission timer had
+   expired, and segment 102 was retransmitted from the un-truncated ring, carrying the bytes of
+   101, which B read twice.  Now the bookkeeping runs on that arm too: on the same op list A
+   retransmits nothing after the close, B has read exactly bytes 0..527, and the prefix predicate
+   holds at every step. *)
 Definition d17_cfg : pconfig :=
   {| pc_ipv4 := true; pc_mtu_a := 576; pc_mtu_b := 576; pc_rx_a := 1048576; pc_rx_b := 1048576;
      pc_tx_init := 32768; pc_tx_max := 1048576; pc_nagle_a := true; pc_nagle_b := true; pc_max_retx := 5;
@@ -143,19 +146,20 @@ Definition d17_pair_ops : list pop :=
    PoPoll SB []; PoNow 50000000; PoPoll SB []; PoDeliver SB 0; PoApp SA ACloseInbox; PoNow 5000000000;
    PoPoll SA []; PoDeliver SA 0; PoDeliver SA 0; PoDeliver SA 0; PoPoll SB []; PoApp SB (ARead 5000)].
 
-Lemma c01_pair_channel_closed_refuted :
-  exists w cfg ops s0,
-    pair_new (fixed_cc w) (fun _ _ => tt) cfg = Some s0 /\
-    let tr := ptrace (fixed_cc w) s0 ops in
-    let evs := pevents (fixed_cc w) s0 ops in
-    c01_pair_ok (zip_obs ops tr) = false /\ c01_kf1_class evs = false /\ c01_d17_class evs = true /\
-    c01_pair_guarded evs (zip_obs ops tr) = true /\
-    ha_len (p_rb (prun (fixed_cc w) s0 ops)) = 1056.
+Lemma c01_pair_channel_closed_regression :
+  exists s0,
+    pair_new (fixed_cc 100000) (fun _ _ => tt) d17_cfg = Some s0 /\
+    let tr := ptrace (fixed_cc 100000) s0 d17_pair_ops in
+    let evs := pevents (fixed_cc 100000) s0 d17_pair_ops in
+    c01_pair_ok (zip_obs d17_pair_ops tr) = true /\ c01_kf1_class evs = false /\ c01_d17_class evs = false /\
+    In (KeClose SA) evs /\
+    ha_len (p_rb (prun (fixed_cc 100000) s0 d17_pair_ops)) = 528 /\
+    ha_len (p_wa (prun (fixed_cc 100000) s0 d17_pair_ops)) = 3000.
 Proof.
-  exists 100000, d17_cfg, d17_pair_ops.
   destruct (pair_new (fixed_cc 100000) (fun _ _ => tt) d17_cfg) as [s0|] eqn:E; [|vm_compute in E; discriminate].
   exists s0. split; [reflexivity|].
   vm_compute in E. injection E as <-. vm_compute. repeat split.
+  repeat (try (left; reflexivity); right).
 Qed.
 
 (* the predicate is sound for what it states: when it holds, each reader's cumulative length
